@@ -33,7 +33,7 @@ REAL = ['py4hw.simulation.Simulator._clk_cycle (enable test, per-driver clockAll
         'py4hw.logic.clock.GatedClock', 'sequential library blocks']
 STUB = ['stimulus']
 ASSUMPTIONS = ['reference models of dsim/catalog.py']
-PROBES = ['refetched_through_constructor', 'caller_supplied_top_driver', 'regated_after_run', 'driver_on_block', 'top_driver_gated', 'enable_attached_late', 'disabled_edge', 'enabled_edge', 'self_gated', 'cross_domain_enable', 'wide_enable', 'nested_driver', 'gatedclock_idiom', 'single_cycle_stall', 'long_stall']
+PROBES = ['shared_driver_object', 'simulator_refetched_by_listener', 'edge_aborted_before_anything_was_clocked', 'refetched_through_constructor', 'caller_supplied_top_driver', 'regated_after_run', 'driver_on_block', 'top_driver_gated', 'enable_attached_late', 'disabled_edge', 'enabled_edge', 'self_gated', 'cross_domain_enable', 'wide_enable', 'nested_driver', 'gatedclock_idiom', 'single_cycle_stall', 'long_stall']
 
 
 def gen(rs, tier, index):
@@ -65,6 +65,13 @@ def gen(rs, tier, index):
         # the same gated sub-block instantiated twice gives two drivers with one name: names are not unique
         gd[g] = {'name': rng.choice(['gclk', 'clk_' + g.replace('/', '_')]), 'en': en,
                  'idiom': 'gatedclock' if (en and rng.random() < 0.3) else 'enable', 'mode': mode if en else 'none'}
+    # one driver object on two groups: the second group gets the very same object (same enable) instead of one of its own
+    gk = [g for g in sorted(gd) if gd[g]['en'] and gd[g]['idiom'] == 'enable']
+    if gk and len(groups) > len(gd) and rng.random() < 0.3:
+        g0 = rng.choice(gk)
+        g1 = rng.choice([g for g in groups if g not in gd])
+        gd[g0] = dict(gd[g0], share=g0)
+        gd[g1] = dict(gd[g0])
     d['group_driver'] = gd
     # drivers placed directly on blocks (structural library blocks and clockable leaves such as Reg)
     nd = {}
@@ -132,7 +139,32 @@ def gen(rs, tier, index):
                       'pseed': rs.sub('p%d' % si)})
         c += nn
         si += 1
-    return {'design': d, 'order': order, 'steps': steps}
+    scn = {'design': d, 'order': order, 'steps': steps}
+    # a listener that asks for the simulator at every callback (a monitor doing hw.getSimulator() during clk(n))
+    scn['refresher'] = fr.random() < 0.2
+    if fr.random() < 0.12 and not d.get('regate'):
+        # a checker block whose clock() raises on demand; it is visited before everything else, so the aborted edge has
+        # prepared nothing and changed no state: the caller catches the exception and goes on
+        nm = 'i%d' % len(d['inputs'])
+        d['inputs'].append({'name': nm, 'w': 1, 'role': 'throw'})
+        nid = max(n_['id'] for n_ in d['nodes']) + 1
+        d['nodes'].append({'id': nid, 'kind': 'Thrower', 'p': {}, 'ins': [nm], 'ow': [1], 'grp': []})
+        d['outputs'].append('n%d.0' % nid)
+        d['order'].append(nid)
+        scn['order'] = order + [nid]
+        for stp in steps:
+            stp['vec'] = stp['vec'] + [0]
+            if fr.random() < 0.3:
+                tv = list(stp['vec'])
+                for j, i in enumerate(d['inputs']):
+                    if i.get('role') == 'enable':
+                        tv[j] = fr.randint(0, (1 << i['w']) - 1)
+                    if i['name'] == d.get('top_enable'):
+                        tv[j] = 1               # the checker lives in the top-level domain: that one runs at the aborted edge
+                tv[-1] = 1
+                stp['throw'] = tv
+        scn['thrower'] = nid
+    return scn
 
 
 def run(scn, log, st):
@@ -149,6 +181,8 @@ def run(scn, log, st):
             st.probe('gatedclock_idiom')
         if any(h != g and g.startswith(h + '/') for h in gd):
             st.probe('nested_driver')
+        if dv.get('share') is not None and g != dv['share']:
+            st.probe('shared_driver_object')
     b = netlist.Built(d).build(scn['order'])
     with quiet():
         sim = b.hw.getSimulator()
@@ -170,6 +204,14 @@ def run(scn, log, st):
         st.probe('enable_attached_late')
     seen_en, seen_dis = set(), set()
     run_len = {}
+    if scn.get('refresher'):
+        class _Refresher:
+            def simulatorUpdated(self_):
+                with quiet():
+                    b.hw.getSimulator()
+        sim.addListener(_Refresher())
+        st.probe('simulator_refetched_by_listener')
+    thrower = b.objs.get(scn.get('thrower')) if scn.get('thrower') is not None else None
     for si, step in enumerate(scn['steps'], 1):
         rng = random.Random(step['pseed'])
         if regate is not None and si == min(regate['at'], len(scn['steps'])):
@@ -197,7 +239,16 @@ def run(scn, log, st):
                 else:
                     sim = b.hw.getSimulator()
             st.fault('resort')
-        seams.EdgeShuffler(sim, rng, st)
+        seams.EdgeShuffler(sim, rng, st, first=thrower)
+        if step.get('throw') and thrower is not None:
+            for x in (b, twin, ref):
+                x.set_inputs(step['throw'])
+            try:
+                with quiet():
+                    sim.clk(1)
+            except RuntimeError:
+                st.fault('edge_aborted_by_exception')
+                st.probe('edge_aborted_before_anything_was_clocked')
         vec = step['vec']
         for x in (b, twin, ref):
             x.set_inputs(vec)
